@@ -81,6 +81,19 @@ Theorem C06_free_session_reported : forall g fuel starting s s' xs, FailProofs.I
 Proof. exact fruns_reported. Qed.
 Print Assumptions C06_free_session_reported.
 
+(* ... and every node such a run executes, other than the one the caller ran, was triggered by a signal that had
+   really been sent; a completion-type signal (ran / true / false) is only ever sent by a node whose function
+   returned, `failed` only by one whose function raised: no node executes on the strength of the completion of a
+   node that failed *)
+Theorem C06_free_nothing_runs_on_a_failed_completion : forall g fuel s n s' r, FailProofs.Inv s ->
+  fexec g fuel s n = (s', r) ->
+  exists l : list logev, Fail.log s' = (Fail.log s ++ l)%list /\
+    forall m, In m (started l) -> m = n \/
+      exists e rc, fst rc = m /\ In (e, rc) (sent s') /\
+        (snd e = OFailed -> In (LRaise (fst e)) (Fail.log s')) /\ (snd e <> OFailed -> In (LOk (fst e)) (Fail.log s')).
+Proof. exact fexec_triggered_soundly. Qed.
+Print Assumptions C06_free_nothing_runs_on_a_failed_completion.
+
 (* non-vacuity: n0 >> n1 >> n2, n1 raises, its failure handler n3 runs; n4 waits for n0 AND n1: the caller of
    n0.run() gets n1's exception, n2 and n4 never run, n0 is not marked failed *)
 Example C06_free_chain :
